@@ -11,6 +11,7 @@ from harness.common import REPO
 
 ROOT = os.path.dirname(os.path.dirname(os.path.dirname(os.path.abspath(__file__))))
 KINDS = "Add,SubTP,Cmp1"
+CASE_TIMEOUT = 900
 
 
 def run_case(case, rec, cid):
